@@ -4,7 +4,10 @@ package c11
 import (
 	"context"
 
+	"git.defalsify.org/vise.git/cache"
 	"git.defalsify.org/vise.git/db"
+	"git.defalsify.org/vise.git/persist"
+	"git.defalsify.org/vise.git/state"
 	"vharness/c10"
 	"vharness/pgfake"
 	"vharness/vrt"
@@ -195,7 +198,65 @@ func Crafted(v *vrt.Ctx) {
 	v.Cover("C11/crafted")
 }
 
+// PersistScope: the session persister and the application share one store
+// handle (what engine.Config and a DbResource over the same store do). The
+// application keeps user data - a byte string it does not control the content
+// of, here a well-formed session record taken from elsewhere - under a key
+// equal to a session's name; the persister is then asked for that session,
+// with the handle left on whatever data type it was last used for. There is
+// no state record, so nothing may be loaded: the user data is never taken for
+// session state. And the other way round: after a save the application finds
+// no user data under the session's name.
+func PersistScope(v *vrt.Ctx) {
+	which := v.Param("backend")
+	ctx := context.Background()
+	name := "s" + v.Str("name", 1)
+	c0 := name[1]
+	v.Assume(v.Or(v.And(c0 >= 'a', c0 <= 'z'), v.And(c0 >= '0', c0 <= '9')))
+	// a well-formed record: another session, deeper in its application
+	other := c10.Open(v, ctx, 0)
+	ost := state.NewState(4)
+	ost.Down("root")
+	ost.Down("deep")
+	oca := cache.NewCache()
+	oca.Push()
+	oca.Push()
+	v.Assume(persist.NewPersister(other).WithContent(ost, oca).Save(name) == nil)
+	other.SetPrefix(db.DATATYPE_STATE)
+	other.SetSession("")
+	blob, err := other.Get(ctx, []byte(name))
+	v.Assume(err == nil)
+
+	store := c10.Open(v, ctx, which)
+	last := types[v.Choice("handle-last-used-for", len(types))]
+	if v.Choice("direction", 2) == 0 {
+		store.SetPrefix(db.DATATYPE_USERDATA)
+		v.Assume(store.Put(ctx, []byte(name), blob) == nil)
+		store.SetPrefix(last)
+		st, ca := state.NewState(4), cache.NewCache()
+		pe := persist.NewPersister(store).WithContent(st, ca)
+		lerr := pe.Load(name)
+		v.Assert(lerr != nil, "C11/user-data-is-not-loaded-as-session-state")
+		v.Assert(len(pe.GetState().ExecPath) == 0, "C11/user-data-is-not-loaded-as-session-state")
+		v.Cover("C11/persist-scope-load")
+		return
+	}
+	st, ca := state.NewState(4), cache.NewCache()
+	st.Down("root")
+	ca.Push()
+	store.SetPrefix(last)
+	v.Assume(persist.NewPersister(store).WithContent(st, ca).Save(name) == nil)
+	store.SetPrefix(db.DATATYPE_USERDATA)
+	_, gerr := store.Get(ctx, []byte(name))
+	v.Assert(gerr != nil, "C11/session-state-is-not-returned-as-user-data")
+	store.SetPrefix(db.DATATYPE_STATE)
+	got, gerr := store.Get(ctx, []byte(name))
+	v.Assert(gerr == nil && len(got) > 0, "C11/session-state-is-stored-under-its-type")
+	v.Cover("C11/persist-scope-save")
+}
+
 var Harnesses = map[string]func(*vrt.Ctx){
+	"PersistScope": PersistScope,
 	"Crafted": Crafted,
 	"List":   List,
 	"Inject": Inject,
